@@ -16,8 +16,15 @@ func (fr *Frame) step(ins ssa.Instruction, st *State) {
 	case *ssa.DebugRef:
 	case *ssa.Alloc:
 		loc := e.newObj(st)
+		if localStructAlloc(ins) {
+			et := ins.Type().Underlying().(*types.Pointer).Elem()
+			fr.localStore(st, ins, nil, et, vc.zero(et))
+			fr.setVal(ins, loc)
+			break
+		}
 		e.zeroAt(st, loc, ins.Type().Underlying().(*types.Pointer).Elem())
 		fr.setVal(ins, loc)
+		fr.markLocal(st, ins, loc)
 	case *ssa.FieldAddr:
 		base := fr.val(ins.X)
 		fr.safeNonNil(st, base, "field address of nil pointer", ins)
@@ -86,6 +93,7 @@ func (fr *Frame) step(ins ssa.Instruction, st *State) {
 		dc := e.mapDomComp(mt)
 		st.heap[dc] = vc.name("h", e.compSort[dc], sto(e.get(st, dc), loc, e.emptySet(vc.sortOf(mt.Key()))))
 		fr.setVal(ins, loc)
+		fr.markLocal(st, ins, loc)
 	case *ssa.MakeSlice:
 		loc := e.newObj(st)
 		et := ins.Type().Underlying().(*types.Slice).Elem()
@@ -140,6 +148,72 @@ func (fr *Frame) step(ins ssa.Instruction, st *State) {
 	default:
 		fr.unsup("instruction %T", ins)
 	}
+}
+
+// localOnly: the freshly created object (map, slice backing array, variable cell) is only ever used
+// by this function's own loads, stores and lookups: its address is never passed to a call, stored in
+// memory, captured by a closure or merged at a phi. Such an object cannot be reached by any callee.
+func localOnly(v ssa.Value) bool {
+	refs := v.Referrers()
+	if refs == nil {
+		return false
+	}
+	for _, r := range *refs {
+		switch r := r.(type) {
+		case *ssa.DebugRef, *ssa.Return:
+		case *ssa.MapUpdate:
+			if r.Map != v {
+				return false
+			}
+		case *ssa.Lookup:
+			if r.X != v {
+				return false
+			}
+		case *ssa.Range:
+		case *ssa.UnOp:
+			if r.X != v {
+				return false
+			}
+		case *ssa.Store:
+			if r.Addr != v {
+				return false
+			}
+		case *ssa.IndexAddr:
+			if r.X != v {
+				return false
+			}
+			// element addresses must themselves be used only for loads and stores
+			for _, r2 := range *r.Referrers() {
+				switch r2 := r2.(type) {
+				case *ssa.UnOp, *ssa.DebugRef:
+				case *ssa.Store:
+					if r2.Addr != r {
+						return false
+					}
+				default:
+					return false
+				}
+			}
+		case *ssa.Call:
+			// builtins len/cap/delete only
+			if b, ok := r.Call.Value.(*ssa.Builtin); !ok || (b.Name() != "len" && b.Name() != "cap" && b.Name() != "delete") {
+				return false
+			}
+		default:
+			return false
+		}
+	}
+	return true
+}
+
+func (fr *Frame) markLocal(st *State, ins ssa.Value, loc Term) {
+	if !localOnly(ins) {
+		return
+	}
+	vc := fr.eng.vc
+	vc.decl("fn:localroot", "(declare-fun localroot (Int) Bool)")
+	vc.assumeIf(st.pc, fmt.Sprintf("(localroot (rootid %s))", loc))
+	fr.eng.hasLocals = true
 }
 
 func isIgnorableDefer(d *ssa.Defer) bool {
@@ -206,6 +280,108 @@ func (e *Engine) safeOrd(fr *Frame, kind string) int {
 
 // cellOf resolves an address value to (component, index, elemType); for struct-typed
 // cells comp is "" and index is the struct's base location.
+// ---- non-escaping struct variables ----
+// A struct-typed local whose address is only used for field loads/stores (and whole-value loads and
+// stores) is kept out of the shared field components: each of its scalar leaves is a private state
+// variable. Stores to it therefore never disturb (or appear to modify) the heap that specs talk about.
+
+func localStructAlloc(v ssa.Value) bool {
+	al, ok := v.(*ssa.Alloc)
+	if !ok {
+		return false
+	}
+	pt, ok := al.Type().Underlying().(*types.Pointer)
+	if !ok {
+		return false
+	}
+	if _, ok := pt.Elem().Underlying().(*types.Struct); !ok || !isStructLike(pt.Elem()) {
+		return false
+	}
+	return addrOnlyLoadsStores(al)
+}
+
+func addrOnlyLoadsStores(v ssa.Value) bool {
+	refs := v.Referrers()
+	if refs == nil {
+		return false
+	}
+	for _, r := range *refs {
+		switch r := r.(type) {
+		case *ssa.DebugRef:
+		case *ssa.UnOp:
+			if r.X != v {
+				return false
+			}
+		case *ssa.Store:
+			if r.Addr != v {
+				return false
+			}
+		case *ssa.FieldAddr:
+			if r.X != v || !addrOnlyLoadsStores(r) {
+				return false
+			}
+		default:
+			return false
+		}
+	}
+	return true
+}
+
+// localPath: addr is a (nested) field address inside a local struct variable: returns the variable and the field path.
+func localPath(addr ssa.Value) (*ssa.Alloc, []int, bool) {
+	var path []int
+	cur := addr
+	for {
+		switch x := cur.(type) {
+		case *ssa.FieldAddr:
+			path = append([]int{x.Field}, path...)
+			cur = x.X
+		case *ssa.Alloc:
+			if localStructAlloc(x) {
+				return x, path, true
+			}
+			return nil, nil, false
+		default:
+			return nil, nil, false
+		}
+	}
+}
+
+func (fr *Frame) localLeaf(al *ssa.Alloc, path []int, t types.Type) string {
+	n := fmt.Sprintf("$ls$%s$%s", fr.tag, al.Name())
+	for _, i := range path {
+		n += fmt.Sprintf(".%d", i)
+	}
+	return fr.eng.comp(n, fr.eng.vc.sortOf(t))
+}
+
+func (fr *Frame) localLoad(st *State, al *ssa.Alloc, path []int, t types.Type) Term {
+	e := fr.eng
+	if stt, ok := t.Underlying().(*types.Struct); ok && isStructLike(t) {
+		e.vc.sortOf(t)
+		if stt.NumFields() == 0 {
+			return e.vc.structCtor(t)
+		}
+		var fs []string
+		for i := 0; i < stt.NumFields(); i++ {
+			fs = append(fs, fr.localLoad(st, al, append(append([]int{}, path...), i), stt.Field(i).Type()))
+		}
+		return fmt.Sprintf("(%s %s)", e.vc.structCtor(t), strings.Join(fs, " "))
+	}
+	return e.get(st, fr.localLeaf(al, path, t))
+}
+
+func (fr *Frame) localStore(st *State, al *ssa.Alloc, path []int, t types.Type, v Term) {
+	e := fr.eng
+	if stt, ok := t.Underlying().(*types.Struct); ok && isStructLike(t) {
+		for i := 0; i < stt.NumFields(); i++ {
+			fr.localStore(st, al, append(append([]int{}, path...), i), stt.Field(i).Type(), fmt.Sprintf("(%s %s)", e.vc.structSel(t, i), v))
+		}
+		return
+	}
+	st.heap[fr.localLeaf(al, path, t)] = e.vc.name("ls", e.vc.sortOf(t), v)
+}
+
 func (fr *Frame) cellOf(addr ssa.Value) (comp string, ix Term, et types.Type) {
 	e := fr.eng
 	pt, ok := addr.Type().Underlying().(*types.Pointer)
@@ -228,6 +404,9 @@ func (fr *Frame) cellOf(addr ssa.Value) (comp string, ix Term, et types.Type) {
 
 func (fr *Frame) load(st *State, addr ssa.Value, ins ssa.Instruction) Term {
 	e := fr.eng
+	if al, path, ok := localPath(addr); ok {
+		return fr.localLoad(st, al, path, addr.Type().Underlying().(*types.Pointer).Elem())
+	}
 	comp, ix, et := fr.cellOf(addr)
 	if _, isFA := addr.(*ssa.FieldAddr); !isFA {
 		if _, isIA := addr.(*ssa.IndexAddr); !isIA {
@@ -242,6 +421,10 @@ func (fr *Frame) load(st *State, addr ssa.Value, ins ssa.Instruction) Term {
 
 func (fr *Frame) store(st *State, addr ssa.Value, v Term, ins ssa.Instruction) {
 	e := fr.eng
+	if al, path, ok := localPath(addr); ok {
+		fr.localStore(st, al, path, addr.Type().Underlying().(*types.Pointer).Elem(), v)
+		return
+	}
 	comp, ix, et := fr.cellOf(addr)
 	if _, isFA := addr.(*ssa.FieldAddr); !isFA {
 		if _, isIA := addr.(*ssa.IndexAddr); !isIA {
